@@ -8,7 +8,8 @@
 N=${1:-3}
 rm -rf /tmp/px; mkdir -p /tmp/px
 if [ -n "$(git -C /repo status --porcelain)" ]; then echo "/repo not clean"; exit 2; fi
-ls -d /verif/seeded/C*/ | xargs -n1 basename > /tmp/px/all
+# ONLY=<regex> restricts the run to the seeds whose name matches (e.g. ONLY='^(C01|C20)')
+ls -d /verif/seeded/C*/ | xargs -n1 basename | grep -E "${ONLY:-.}" > /tmp/px/all
 for i in $(seq 0 $((N-1))); do
   cp -a /repo /tmp/px/repo$i
   mkdir -p /tmp/px/verif$i
@@ -18,7 +19,7 @@ for i in $(seq 0 $((N-1))); do
 done
 wait
 mkdir -p /verif/.work
-cat /tmp/px/out* | sort > /verif/.work/seedmatrix.out
+cat /tmp/px/out* | sort > /verif/.work/seedmatrix${ONLY:+.part}.out
 # a violation that only the load of the parallel runs produced must not pass for a detection:
 # the signatures that fired are compared with those recorded when the seed was last run alone
 for i in $(seq 0 $((N-1))); do
@@ -34,6 +35,7 @@ PY
     cp /tmp/px/verif$i/seeded/$name/meta.json /verif/seeded/$name/meta.json
   done < /tmp/px/list$i
 done
-echo "seeds: $(wc -l < /tmp/px/all)  detected (rc=1): $(grep -c 'rc=1' /verif/.work/seedmatrix.out)  not detected: $(grep -vc 'rc=1' /verif/.work/seedmatrix.out)"
-grep -v 'rc=1' /verif/.work/seedmatrix.out
+OUT=/verif/.work/seedmatrix${ONLY:+.part}.out
+echo "seeds: $(wc -l < /tmp/px/all)  detected (rc=1): $(grep -c 'rc=1' $OUT)  not detected: $(grep -vc 'rc=1' $OUT)"
+grep -v 'rc=1' $OUT
 rm -rf /tmp/px
